@@ -202,6 +202,7 @@ def rule_P1(ctx):
 
 # ====================================================================== P2
 def rule_P2(ctx):
+    _PROG["prog"] = ctx.prog
     res = RuleResult("P2", "tasks are offered only while the workflow status is a running "
                            "status, or for run-on-fail siblings of a fail command after failure")
     prog = ctx.prog
@@ -274,6 +275,14 @@ def rule_P2(ctx):
                         ok = True
             inst = ("run_on_fail", e.func.qualname, norm_src(e.node))
             if ok:
+                ok2, why2 = _siblings_only(e)
+                if not ok2:
+                    res.violated(inst, _f(
+                        "P2", e.func, e.node, norm_src(e.node),
+                        "run_on_fail is set on entries that are not the tasks staged by the same "
+                        "transition set as the fail command: %s" % why2))
+                    continue
+            if ok:
                 res.holds(inst)
             else:
                 res.violated(inst, _f(
@@ -298,6 +307,68 @@ def rule_P2(ctx):
                 res.violated(inst, _f("P2", f, r, norm_src(r),
                                       "the gate's early return may return tasks"))
     return res
+
+
+_PROG = {}
+
+
+def e_prog(e):
+    return _PROG["prog"]
+
+
+def _siblings_only(e):
+    """The entry whose run_on_fail flag is set is drawn from a local list that only ever receives
+    entries staged in this activation (results of add_staged_task / get_staged_task)."""
+    f = e.func
+    tgt = e.node.targets[0] if isinstance(e.node, ast.Assign) else None
+    if not (isinstance(tgt, ast.Subscript) and isinstance(tgt.value, ast.Name)):
+        return False, "target is not a local entry"
+    var = tgt.value.id
+    loop = e.node
+    while loop is not None and not (isinstance(loop, ast.For) and isinstance(
+            loop.target, ast.Name) and loop.target.id == var):
+        loop = getattr(loop, "_parent", None)
+    if loop is None:
+        # flag set directly on the freshly staged entry
+        ds = _defs(f, var)
+        if ds and all(isinstance(d.value, ast.Call) and callee_name(d.value) in (
+                "add_staged_task", "get_staged_task") for d in ds):
+            return True, ""
+        return False, "entry %s is not one staged by this transition set" % var
+    if not isinstance(loop.iter, ast.Name):
+        return False, "iterates %s instead of the list of tasks staged beside the fail " \
+                      "command" % unparse(loop.iter)
+    lst = loop.iter.id
+    ds = _defs(f, lst)
+    if not ds or not all(isinstance(d.value, (ast.List, ast.Tuple)) and not d.value.elts for d in ds):
+        return False, "%s is not a list collected in this activation" % lst
+    apps = [c for c in calls_in(f.node) if callee_name(c) in ("append", "extend", "insert")
+            and isinstance(c.func, ast.Attribute) and isinstance(c.func.value, ast.Name)
+            and c.func.value.id == lst]
+    if not apps:
+        return False, "%s never receives an entry" % lst
+    # names that record whether a fail command was seen (assigned from '== "fail"')
+    flags = set()
+    for n in ast.walk(f.node):
+        if isinstance(n, ast.Assign) and isinstance(n.value, ast.Compare) and any(
+                isinstance(c, ast.Constant) and c.value == "fail" for c in n.value.comparators):
+            flags |= {t.id for t in n.targets if isinstance(t, ast.Name)}
+    fg = FuncGuards(e_prog(e), f)
+    for c in apps:
+        for a_ in fg.atoms(c):
+            if a_[0] in ("truthy", "falsy") and a_[1] in flags:
+                # the flag is only final after the whole transition set was processed
+                return False, "siblings are collected only %s the fail command was seen, which " \
+                              "depends on the order in which the transitions are processed" % (
+                                  "after" if a_[0] == "truthy" else "before")
+        a = c.args[-1] if c.args else None
+        if not isinstance(a, ast.Name):
+            return False, "%s receives %s" % (lst, unparse(a) if a is not None else "?")
+        ads = _defs(f, a.id)
+        if not ads or not all(isinstance(d.value, ast.Call) and callee_name(d.value) in (
+                "add_staged_task", "get_staged_task") for d in ads):
+            return False, "%s receives entries that were not staged here" % lst
+    return True, ""
 
 
 # ====================================================================== P3
